@@ -23,7 +23,7 @@ RULE = ("Generated projects (several variants per recipe through per-dependency 
         "directory; distinct = hash of the case.")
 ASSUMPTIONS = ["clean is only judged after a successful build of the same state with the same -D",
                "Bob runs in the harness process; suspected violations are re-run with the real bob script"]
-TIME_BUDGET = {"quick": 280, "thorough": 1700}
+TIME_BUDGET = {"quick": 240, "thorough": 1700}
 BATCH = 8
 
 def step_dirs(run, root, model, mode):
